@@ -3,7 +3,7 @@
 # /verif/seeded/<prop>-<k>/) must make the property's check exit 1 with a VIOLATION line.
 # usage: selftest.sh [prop ...]
 cd /verif
-props=${@:-$(ls mutants)}
+props=${@:-$( (ls mutants; ls seeded | sed "s/-.*//") | sort -u)}
 run() { p=$1; f=$2; out=$(tools/mutant.sh "$f" "$p" -no-evidence 2>&1); rc=$?;
   n=$(echo "$out" | grep -c "^VIOLATION property=$p"); c=$(echo "$out" | grep "^VIOLATION property=$p" | grep -vc "no-failing-input-found");
   if [ $rc -eq 1 ] && [ $n -gt 0 ]; then echo "caught   $p $(basename $(dirname $f))/$(basename $f .patch) violations=$n replayed=$c first: $(echo "$out" | grep -m1 '^\(failed\|unknown\|vacuous\)' | awk '{print $1,$2}')";
